@@ -156,12 +156,16 @@ fn main() {
             p.max_workers = Some(1);
             p.max_shrink_iters = 8;
             parts.push(p);
+            let mut p = make_part("real-drop-while-unwinding", "CONV/sock", if cli.thorough { 40 } else { 6 }, props_sock2::c20_unwind_strategy, |_| (), |w, c| props_sock2::c20_unwind_test(w, c));
+            p.max_workers = Some(3);
+            p.max_shrink_iters = 3;
+            parts.push(p);
             let mut p = make_part("proc-accept-failure", "PROC", if cli.thorough { 120 } else { 24 }, proc20::fd_strategy, |_| (), |_, c| proc20::fd_test(c));
             p.max_workers = Some(2);
             p.max_shrink_iters = 4;
             parts.push(p);
             (
-                "part real-time (one scenario at a time, ~9 s each): TCP server on 127.0.0.1 / 127.0.0.2 / [::1] / 0.0.0.0 or UNIX server, burst of 6-40 simultaneously open connections all answered, 6.2 s idle: thread count (/proc/self/task) back to <= baseline + accept + 4; next request still served; server dropped (optionally while the application holds a request): after 3 s of silence the first connection attempt is refused, UNIX path removed, the held request's answer reaches the client; part proc-accept-failure: a child process serves 0-3 connections, then lowers its own descriptor limit until accept() fails (the accept thread ends and recv() reports the error), drops the server and checks that the UNIX path is gone within 2 s and that a new connection attempt is refused",
+                "part real-time (one scenario at a time, ~9 s each): TCP server on 127.0.0.1 / 127.0.0.2 / [::1] / 0.0.0.0 or UNIX server, burst of 6-40 simultaneously open connections all answered, 6.2 s idle: thread count (/proc/self/task) back to <= baseline + accept + 4; next request still served; server dropped (optionally while the application holds a request): after 3 s of silence the first connection attempt is refused, UNIX path removed, the held request's answer reaches the client; part real-drop-while-unwinding: the thread that owns the server panics, so that the server is dropped during unwinding: 400 ms later the first connection attempt is refused and a UNIX path is gone; part proc-accept-failure: a child process serves 0-3 connections, then lowers its own descriptor limit until accept() fails (the accept thread ends and recv() reports the error), drops the server and checks that the UNIX path is gone within 2 s and that a new connection attempt is refused",
                 vec!["thread counts are process-wide: this part runs single-threaded"],
             )
         }
